@@ -866,6 +866,11 @@ def _rfc_py_model(cx, rep, p, fd):
     n = 0
     # environment flags whose meaning is known: none of them says anything about the lines still to come
     KNOWN_ENV = {'exhausted': 'the source being exhausted does not mean that no buffered line follows'}
+    # flags computed from the read buffer describe how the input happened to be cut into reads, not the line at hand
+    cls_ = p.cls('rbql_csv', 'CSVRecordIterator')
+    for a_ in ast.walk(cls_):
+        if isinstance(a_, ast.Assign) and len(a_.targets) == 1 and (dotted(a_.targets[0]) or '').startswith('self.') and any((dotted(x) or '') in ('self.buffer', 'self.stream') for x in ast.walk(a_.value)):
+            KNOWN_ENV.setdefault(dotted(a_.targets[0])[5:], 'it is computed from the read buffer (`{}`), i.e. from where the reads happened to cut the input'.format(node_text(a_.value, 60)))
     und = []
 
     class _B(dict):
